@@ -609,6 +609,11 @@ def bayer_tiling_rule(chk, repo, clause):
                    ok, det, f.loc())
 
 
+def _opaque_lookup(v):
+    """the value goes through a callable / record fetched from a container the interpreter did not evaluate"""
+    return any(is_app(a, ('callv', 'm:get')) or (a[0] == 'attr' and a[1][0] == 'fresh') for a in nf.value_atoms(v))
+
+
 def vegaflux_rule(chk, repo, clause):
     f, paths, _ = analyse(repo, 'radiometry.vegaflux', config={'valueunit': Const('photlam'), 'band': Const('V')},
                           symbolic_globals=True, literal_tables=True, inline=['radiometry.Photlam.to'])
@@ -623,6 +628,8 @@ def vegaflux_rule(chk, repo, clause):
             want_flux = jy * Poly.const(Fraction('1e-26')) / (S('radiometry.H') * w0) / M
             ok = flux == want_flux and wave == w0 * M
             det = f'flux = {fmt(flux)}, wave = {fmt(wave)}'
+            if not ok and _opaque_lookup(flux):
+                ok, det = None, 'undecided: the conversion is taken from a table that is not evaluated: ' + det[:160]
     chk.ob(clause, 'N-formula', f.key, 'zero point: Jy*1e-26*c/lambda^2 [W/m^2/m] / (h*c/lambda) photons, per requested wavelength unit',
            ok, det, f.loc())
     # other flux units: the photon -> energy conversion needs the wavelength in metres (h*c/lambda)
@@ -640,5 +647,7 @@ def vegaflux_rule(chk, repo, clause):
                 want = jy * Poly.const(Fraction('1e-26')) * S('radiometry.C') / w0 ** 2 * factor / M
                 ok2 = flux == want and wave == w0 * M
                 det2 = f'flux = {fmt(flux)}; expected {fmt(want)}'
+                if not ok2 and _opaque_lookup(flux):
+                    ok2, det2 = None, 'undecided: the conversion is taken from a table that is not evaluated: ' + det2[:160]
         chk.ob(clause, 'N-formula', f.key, f'zero point in {vu}: photons * h*c/lambda with lambda in metres, per requested wavelength unit',
                ok2, det2, f.loc())
